@@ -557,6 +557,12 @@ def mk1(name, uni, init, H, div, nc, cap, items, outcap=2, fbcap=2, **kw):
     return c
 
 
+def v1_rmvshare():
+    c = mk1("v1rmvshare", [3, 2, 1], {3: 1, 2: 2, 1: 3}, 8, "rate", 3, 4, 60, outcap=1, fbcap=4, rmvs=[1], extra=dict(stall=True, pressure_after_remove=True, eager_release=True))
+    c["items"]["3"] = 2
+    return c
+
+
 def v1_configs(kind, tier):
     """recorder configurations (real code); the TLC configurations are smaller variants of the same shapes"""
     big = tier == "thorough"
@@ -575,7 +581,10 @@ def v1_configs(kind, tier):
                 # remove and re-add of the SAME priority (with items of it possibly in flight), and replacement of a drained channel
                 mk1("v1readd", [2, 1], {2: 1, 1: 2}, 4, "fair", 4, 2, 3, graceful=True, adds=[[3, 1], [4, 2]], rmvs=[1]),
                 mk1("v1readdstall", [2, 1], {2: 1, 1: 2}, 4, "fair", 4, 2, 4, adds=[[3, 1]], rmvs=[1], extra=dict(stall=True)),
-                mk1("v1dynstall", [3, 2, 1], {3: 1, 2: 2}, 6, "rate", 4, 2, 5, adds=[[3, 1], [4, 2]], rmvs=[3], extra=dict(stall=True))]
+                mk1("v1dynstall", [3, 2, 1], {3: 1, 2: 2}, 6, "rate", 4, 2, 5, adds=[[3, 1], [4, 2]], rmvs=[3], extra=dict(stall=True)),
+                # a priority with little data (it uses up its first share, is granted a second one it cannot use, its items are
+                # released) is removed while the others have plenty: what was set aside for it must not be handed out a second time
+                v1_rmvshare()]
     if kind == "grace":
         return [mk1("v1grace", [2, 1], {2: 1, 1: 2}, 3, "rate", 2, 2, 6, graceful=True),
                 mk1("v1gracefair", [3, 2, 1], {3: 1, 2: 2, 1: 3}, 4, "fair", 3, 1, 4, graceful=True, unbuf=[3], outcap=1)]
